@@ -61,7 +61,9 @@ def run(rep):
         "Decides three table-shaped clauses of code generation: every arithmetic / comparison operator is lowered to the right "
         "opcode with the right operand order; an instruction keeps its identity and operand order from the allocated form to the "
         "encoded fuel_asm form and from asm-block text to the virtual form; the std operator impls of u8/u16/u32 range-check and "
-        "revert on overflow. It does not decide code generation as a whole.")
+        "revert on overflow; and (R4-R7) every constant-folding table -- asm-level propagation, IR-level folding and identities, compile-time "
+        "intrinsic evaluation -- uses the evaluator that yields no constant exactly where the VM reverts, and only identities that hold for every "
+        "value of the unknown operand, reverts included. It does not decide code generation as a whole.")
     rep.trusted = ["syn", "the Sway tokenizer of rules/lib/sw.py", "FuelVM opcode semantics", "spec/ops_lowering.txt"]
     t = tab.tree(FAB)
     # ---- R1 ------------------------------------------------------------------------------------------------------------------
@@ -227,3 +229,143 @@ def run(rep):
                 txt = sw.texts(toks, bs, be)
                 ok = "__and" in txt and "__lsh" in txt and "max" in txt
             rep.ob("R3-lsh-masks-to-width", f"Shift for {ty}", ok, OPS, line, f"{ty} << n must clear the bits above the type's width (`__and(__lsh(..), Self::max())`)")
+    rule_folding(rep)
+
+
+class _Prefixed:
+    """Report proxy: re-run a sibling module's rule under this property with prefixed rule names."""
+    def __init__(self, rep, prefix):
+        self._rep, self._p = rep, prefix
+
+    def ob(self, rule, *a, **k):
+        return self._rep.ob(self._p + rule, *a, **k)
+
+    def floor(self, rule, *a, **k):
+        return self._rep.floor(self._p + rule, *a, **k)
+
+    def __getattr__(self, n):
+        return getattr(self._rep, n)
+
+
+IRC = "sway-ir/src/optimize/constants.rs"
+# IR BinaryOpKind -> (VM opcode of its lowering, the only evaluator that yields no constant where the VM reverts / drops bits)
+IR_FOLD = {"Add": ("ADD", "checked_add"), "Sub": ("SUB", "checked_sub"), "Mul": ("MUL", "checked_mul"), "Div": ("DIV", "checked_div"),
+           "Mod": ("MOD", "checked_rem"), "Lsh": ("SLL", "checked_shl"), "Rsh": ("SRL", "checked_shr"),
+           "And": ("AND", "&"), "Or": ("OR", "|"), "Xor": ("XOR", "^")}
+# wide (u256) right shifts use the total `shr` of the bigint type
+IR_FOLD_WIDE_EXTRA = {"Rsh": {"shr", "checked_shr"}}
+
+
+def rule_folding(rep):
+    """R4-R6: constant folding never replaces a reverting operation by a value, and never changes a value.
+    R4 asm level (transform_operator! table of constant_propagate.rs, shared with C07 R1)
+    R5 IR level, both operands constant (combine_binary_op): each (op, Uint|U256, ..) arm evaluates with the checked evaluator of op
+    R6 IR level, one operand constant (remove_useless_binary_op): each algebraic identity agrees with the VM for every value"""
+    import C07
+    C07.rule_r1(_Prefixed(rep, "R4-asm-fold/"))
+    t = tab.tree(IRC)
+    f = tab.fn(t, "combine_binary_op")
+    ms = [m for m in tab.matches_in(f["body"]) if len(m["arms"]) > 4]
+    if len(ms) != 1:
+        raise AnalysisError(f"combine_binary_op: expected one fold table, found {len(ms)}")
+    n5 = 0
+    for arm in ms[0]["arms"]:
+        pat = arm["pat"]
+        if pat.get("k") != "PTuple" or len(pat["elems"]) != 3 or pat["elems"][0].get("k") != "PIdent":
+            if pat.get("k") == "PWild":
+                ok = arm["body"].get("k") == "Path" and arm["body"].get("path") == "None"
+                rep.ob("R5-ir-fold-default-is-no-fold", "combine_binary_op|_", ok, IRC, arm["l"], "the catch-all arm of the fold table must not produce a constant")
+                continue
+            rep.ob("R5-ir-fold-arm-understood", f"combine_binary_op|line-shape", False, IRC, arm["l"], "fold-table arm is not of the form (Op, Const(l), Const(r))")
+            continue
+        op = pat["elems"][0]["name"]
+        kinds = [e.get("path") for e in pat["elems"][1:]]
+        key = f"{op}({','.join(str(k) for k in kinds)})"
+        if op not in IR_FOLD:
+            rep.ob("R5-ir-fold-evaluator", key, False, IRC, arm["l"], f"operator {op} has no recorded evaluator")
+            continue
+        n5 += 1
+        want = {IR_FOLD[op][1]}
+        if kinds[0] == "U256":
+            want |= IR_FOLD_WIDE_EXTRA.get(op, set())
+        used = {n["method"] for n in tab.walk(arm["body"]) if n.get("k") == "MethodCall" and re.match(r"(checked_|wrapping_|overflowing_|saturating_|unchecked_)?(add|sub|mul|div|rem|shl|shr|pow)$", n["method"])} | \
+               {n["op"] for n in tab.walk(arm["body"]) if n.get("k") == "Binary"}
+        rep.ob("R5-ir-fold-evaluator", key, bool(used) and used <= want, IRC, arm["l"],
+               f"constant folding of {op} evaluates with {sorted(used)}; only {sorted(want)} yields no constant exactly where the program reverts "
+               f"(overflow, division by zero, over-wide shift) and the same value otherwise")
+        if any(w.startswith("checked_") for w in want) and used and used <= want and not (used & {"shr"}):
+            defaults = sorted({n["method"] for n in tab.walk(arm["body"]) if n.get("k") == "MethodCall" and re.match(r"(unwrap|expect|or$|or_else$|map_or)", n["method"])})
+            top_some = arm["body"].get("k") == "Call" and arm["body"]["func"].get("path") == "Some"
+            rep.ob("R5-ir-fold-none-propagates", key, not defaults and not top_some, IRC, arm["l"],
+                   f"folding of {op} turns the evaluator's `None` (the program reverts at run time) into a constant ({defaults or 'Some(..)'})")
+        # operand order: receiver is the left constant, argument the right one
+        names = [e["elems"][0].get("name") if e.get("elems") and e["elems"][0].get("k") == "PIdent" else None for e in pat["elems"][1:]]
+        order_ok = True
+        for n in tab.walk(arm["body"]):
+            if n.get("k") == "MethodCall" and n["method"] in want and n["method"] not in ("map", "ok", "and_then"):
+                rv = [x.get("path") for x in tab.walk(n["recv"]) if x.get("k") == "Path"]
+                order_ok &= names[0] in rv and names[1] not in rv
+            if n.get("k") == "Binary" and n["op"] in want:
+                lv = [x.get("path") for x in tab.walk(n["left"]) if x.get("k") == "Path"]
+                order_ok &= names[0] in lv
+        rep.ob("R5-ir-fold-operand-order", key, order_ok, IRC, arm["l"], f"folding of {op} must apply the evaluator to (left, right) in that order")
+    rep.floor("R5-ir-fold-evaluator", 20, n5)
+    f = tab.fn(t, "remove_useless_binary_op")
+    ms = [m for m in tab.matches_in(f["body"]) if len(m["arms"]) > 3]
+    if len(ms) != 1:
+        raise AnalysisError(f"remove_useless_binary_op: expected one identity table, found {len(ms)}")
+    n6 = 0
+    for arm in ms[0]["arms"]:
+        pat = arm["pat"]
+        if pat.get("k") == "PWild":
+            continue
+        def const_of(e):
+            if e.get("k") == "PTupleStruct" and e.get("path") == "Some" and e["elems"] and e["elems"][0].get("k") == "PTupleStruct" and e["elems"][0]["elems"][0].get("k") == "PLit":
+                return e["elems"][0]["elems"][0]["lit"]["v"]
+            return None
+        if pat.get("k") != "PTuple" or len(pat["elems"]) != 3 or pat["elems"][0].get("k") != "PIdent":
+            rep.ob("R6-ir-identity-understood", "remove_useless_binary_op|line-shape", False, IRC, arm["l"], "identity-table arm is not of the form (Op, Some(Uint(c)), _) / (Op, _, Some(Uint(c)))")
+            continue
+        op = pat["elems"][0]["name"]
+        cl, cr = const_of(pat["elems"][1]), const_of(pat["elems"][2])
+        res = [x.get("path") for x in tab.walk(arm["body"]) if x.get("k") == "Path" and x.get("path") in ("arg1", "arg2")]
+        key = f"{op}: left={cl if cl is not None else '_'} right={cr if cr is not None else '_'} => {','.join(res)}"
+        if op not in IR_FOLD or (cl is None) == (cr is None) or len(res) != 1 or pat["elems"][1 if cl is None else 2].get("k") != "PWild":
+            rep.ob("R6-ir-identity-understood", key, False, IRC, arm["l"], "identity-table arm has an unrecognised shape")
+            continue
+        n6 += 1
+        cex = C07.identity_counterexample(IR_FOLD[op][0], "left" if cl is not None else "right", cl if cl is not None else cr, "left" if res[0] == "arg1" else "right")
+        rep.ob("R6-ir-identity", key, cex is None, IRC, arm["l"], f"replacing `{key}` is not valid for every value of the other operand (reverts included): {cex}")
+    rep.floor("R6-ir-identity", 6, n6)
+    # ---- R7: compile-time evaluation of arithmetic intrinsics (const / configurable initialisers) --------------------------
+    CE = "sway-core/src/ir_generation/const_eval.rs"
+    t = tab.tree(CE)
+    f = tab.fn(t, "const_eval_intrinsic")
+    INTR = {"Add": {"checked_add"}, "Sub": {"checked_sub"}, "Mul": {"checked_mul"}, "Div": {"checked_div"}, "Mod": {"checked_rem"},
+            "Lsh": {"checked_shl"}, "Rsh": {"checked_shr", "shr"}, "And": {"bitand", "&"}, "Or": {"bitor", "|"}, "Xor": {"bitxor", "^"}}
+    n7 = 0
+    for m in tab.matches_in(f["body"]):
+        arms = [(a, tab.pat_variants(a["pat"])) for a in m["arms"]]
+        single = [(a, vs[0][0].split("::")[-1]) for a, vs in arms if len(vs) == 1 and vs[0][0].startswith("Intrinsic::") and vs[0][0].split("::")[-1] in INTR]
+        if not single or any(a["body"].get("k") == "Block" for a, _ in single):
+            continue
+        for a, op in single:
+            used = {n["method"] for n in tab.walk(a["body"]) if n.get("k") == "MethodCall" and re.match(r"(checked_|wrapping_|overflowing_|saturating_|unchecked_)?(add|sub|mul|div|rem|shl|shr|pow)$|bit(and|or|xor)$", n["method"])} | \
+                   {n["op"] for n in tab.walk(a["body"]) if n.get("k") == "Binary"}
+            n7 += 1
+            key = f"Intrinsic::{op}#{sum(1 for x in rep.obls if x['rule'] == 'R7-const-eval-evaluator' and x['key'].startswith('Intrinsic::' + op + '#')) + 1}"
+            rep.ob("R7-const-eval-evaluator", key, bool(used) and used <= INTR[op], CE, a["l"],
+                   f"compile-time evaluation of __{op.lower()} uses {sorted(used)}; it must use {sorted(INTR[op])} so that an operation that reverts at run time "
+                   "is a compile error, not a constant")
+            defaults = sorted({n["method"] for n in tab.walk(a["body"]) if n.get("k") == "MethodCall" and re.match(r"(unwrap|expect|or$|or_else$|map_or)", n["method"])})
+            rep.ob("R7-const-eval-none-propagates", key, not defaults, CE, a["l"], f"compile-time evaluation of __{op.lower()} replaces a failed evaluation by a default ({defaults})")
+        # the None of the evaluator becomes an error, not a constant
+    rep.floor("R7-const-eval-evaluator", 25, n7)
+    for m in tab.matches_in(f["body"]):
+        for a in m["arms"]:
+            if a["pat"].get("k") in ("PIdent", "Path", "PPath") and (a["pat"].get("name") or a["pat"].get("path")) == "None":
+                errs = [n for n in tab.walk(a["body"]) if n.get("k") == "Call" and n["func"].get("path") == "Err"]
+                rep.ob("R7-const-eval-failure-is-an-error", f"None-arm#{sum(1 for x in rep.obls if x['rule'] == 'R7-const-eval-failure-is-an-error') + 1}", bool(errs), CE, a["l"],
+                       "a failed compile-time evaluation (overflow, division by zero) must be reported as CannotBeEvaluatedToConst")
+    rep.floor("R7-const-eval-failure-is-an-error", 5)
+
